@@ -220,36 +220,111 @@ def build_driver(name):
     return rc == 0, out, exe
 
 
-def run_phase(cfg, exe, oracle_exe, phase, tier, seed, scale, workdir, replay=None):
-    """runs driver then oracle; returns dict(lines=[(case, obs, answer)], errors=[...])"""
+def run_phase(cfg, exe, oracle_exe, phase, tier, seed, scale, workdir, replay=None, on_line=None):
+    """Runs the driver and streams its `case => observed` lines through the oracle.
+
+    Nothing is kept on disk or in memory: the trace goes through a FIFO, every (case, answer)
+    pair is handed to on_line(case_line, answer). Returns dict(phase, driver_s, cases, errors)."""
+    import threading, queue, tempfile
     name = phase.get("name", "main")
-    trace = os.path.join(workdir, "%s.trace" % name)
-    ans = os.path.join(workdir, "%s.ans" % name)
-    args = [exe, "-tier", tier, "-seed", str(seed), "-out", trace, "-scale", str(scale)]
+    fifo = os.path.join(workdir, "%s.fifo" % (name or "main"))
+    if os.path.exists(fifo):
+        os.unlink(fifo)
+    os.mkfifo(fifo)
+    args = [exe, "-tier", tier, "-seed", str(seed), "-out", fifo, "-scale", str(scale)]
     if phase.get("name"):
         args += ["-phase", phase["name"]]
     if replay:
         args += ["-replay", replay]
     args += phase.get("args", [])
     env = dict(GOENV, GOMEMLIMIT=phase.get("gomemlimit", "6GiB"))
-    rc, out, secs = run(args, cwd=HARNESS, env=env, timeout=phase.get("timeout", 900 if tier == "quick" else 7200))
-    res = {"phase": name, "driver_rc": rc, "driver_out": out[-4000:], "driver_s": round(secs, 2), "lines": [], "errors": []}
-    if rc != 0:
-        res["errors"].append("driver exited %d: %s" % (rc, out[-2000:]))
-    if not os.path.exists(trace):
-        res["errors"].append("driver wrote no trace")
-        return res
-    with open(trace) as fin, open(ans, "w") as fout:
-        p = subprocess.run([oracle_exe], stdin=fin, stdout=fout, stderr=subprocess.PIPE, text=True,
-                           timeout=phase.get("oracle_timeout", 3600))
-    if p.returncode != 0:
-        res["errors"].append("oracle exited %d: %s" % (p.returncode, (p.stderr or "")[-2000:]))
-    cases = [l.rstrip("\n") for l in open(trace) if l.strip() and not l.startswith("#")]
-    answers = [l.rstrip("\n") for l in open(ans)]
-    if len(cases) != len(answers):
-        res["errors"].append("oracle answered %d lines for %d cases" % (len(answers), len(cases)))
-    for c, a in zip(cases, answers):
-        res["lines"].append((c, a))
+    timeout = phase.get("timeout", 900 if tier == "quick" else 7200)
+    res = {"phase": name, "driver_s": 0.0, "cases": 0, "errors": []}
+    t0 = time.time()
+    # reader end first (non-blocking open), plus a dummy writer so that EOF arrives only when we say so
+    rfd = os.open(fifo, os.O_RDONLY | os.O_NONBLOCK)
+    wfd = os.open(fifo, os.O_WRONLY)
+    os.set_blocking(rfd, True)
+    dlog = tempfile.TemporaryFile(mode="w+")
+    drv = subprocess.Popen(args, cwd=HARNESS, env=env, stdout=dlog, stderr=subprocess.STDOUT)
+    orc = subprocess.Popen([oracle_exe], stdin=subprocess.PIPE, stdout=subprocess.PIPE, stderr=subprocess.PIPE)
+    pending = queue.Queue()
+    state = {"timed_out": False}
+
+    def waiter():
+        try:
+            drv.wait(timeout=timeout)
+        except subprocess.TimeoutExpired:
+            state["timed_out"] = True
+            drv.kill()
+            drv.wait()
+        res["driver_s"] = round(time.time() - t0, 2)
+        os.close(wfd)           # now the reader sees EOF once the FIFO is drained
+
+    def feeder():
+        try:
+            with os.fdopen(rfd, "rb", buffering=1 << 20) as fin:
+                for raw in fin:
+                    line = raw.rstrip(b"\r\n")
+                    if not line.strip() or line.startswith(b"#"):
+                        continue
+                    pending.put(line)
+                    try:
+                        orc.stdin.write(line + b"\n")
+                    except (BrokenPipeError, OSError):
+                        break
+        finally:
+            try:
+                orc.stdin.close()
+            except OSError:
+                pass
+            pending.put(None)
+
+    errbuf = []
+    def errreader():
+        errbuf.append(orc.stderr.read()[-4000:])
+
+    th = [threading.Thread(target=f, daemon=True) for f in (waiter, feeder, errreader)]
+    for t in th:
+        t.start()
+    answered = 0
+    for raw in orc.stdout:
+        ans = raw.decode("utf8", "replace").rstrip("\r\n")
+        c = pending.get()
+        if c is None:
+            res["errors"].append("oracle answered more lines than cases")
+            break
+        answered += 1
+        if on_line:
+            on_line(c.decode("utf8", "replace"), ans)
+    orc.wait()
+    for t in th:
+        t.join(timeout=30)
+    # cases the oracle never answered
+    unanswered = 0
+    while True:
+        try:
+            c = pending.get_nowait()
+        except queue.Empty:
+            break
+        if c is not None:
+            unanswered += 1
+    res["cases"] = answered
+    if unanswered:
+        res["errors"].append("oracle left %d cases unanswered" % unanswered)
+    if orc.returncode != 0:
+        res["errors"].append("oracle exited %s: %s" % (orc.returncode, (errbuf[0] if errbuf else b"").decode("utf8", "replace")))
+    dlog.seek(0)
+    dout = dlog.read()[-4000:]
+    dlog.close()
+    if state["timed_out"]:
+        res["errors"].append("driver timed out after %ds" % timeout)
+    elif drv.returncode != 0:
+        res["errors"].append("driver exited %s: %s" % (drv.returncode, dout[-2000:]))
+    try:
+        os.unlink(fifo)
+    except OSError:
+        pass
     return res
 
 
@@ -281,30 +356,60 @@ def write_replay(pid, kind, body):
     return path
 
 
-def summarise(lines):
-    """lines: [(case, answer)] -> stats"""
-    st = {"n": 0, "agree": 0, "disagree": [], "fail": [], "bad": [], "nontrivial": set(), "distinct": set(), "notes": {}}
-    for c, a in lines:
-        st["n"] += 1
-        case = c.split(" => ")[0]
-        h = hashlib.md5(case.encode()).digest()[:8]
-        st["distinct"].add(h)
-        if a.startswith("BADLINE") or not a:
-            st["bad"].append((c, a))
-            continue
-        if " triv" not in a:
-            st["nontrivial"].add(h)
-        if a.startswith("DISAGREE"):
-            st["disagree"].append((c, a))
+class Stats:
+    """streaming summary of (case line, oracle answer) pairs"""
+    MAXKEEP = 200
+
+    def __init__(self, pid, known):
+        self.pid, self.known = pid, known
+        self.n = self.agree = self.ndis = self.nfail = self.nbad = 0
+        self.disagree, self.bad = [], []
+        self.nontrivial, self.distinct = set(), set()
+        self.notes = {}
+        self.unknown = {}      # tag -> (case, answer, why, count) shortest failing case not in known_findings
+        self.known_hit = {}    # finding id -> (entry, case, count)
+        self.head, self.tail = [], []
+
+    def add(self, c, a):
+        self.n += 1
+        if len(self.head) < 3:
+            self.head.append(c)
         else:
-            st["agree"] += 1
+            self.tail = (self.tail + [c])[-2:]
+        h = hash(c.split(" => ")[0])
+        self.distinct.add(h)
+        if a.startswith("BADLINE") or not a:
+            self.nbad += 1
+            if len(self.bad) < 5:
+                self.bad.append((c, a))
+            return
+        if not a.endswith(" triv"):
+            self.nontrivial.add(h)
+        if a.startswith("DISAGREE"):
+            self.ndis += 1
+            if len(self.disagree) < self.MAXKEEP:
+                self.disagree.append((c, a))
+        else:
+            self.agree += 1
         m = re.search(r"spec=FAIL:([^:\s]*):(\S*)", a)
         if m:
-            st["fail"].append((c, a, m.group(1), m.group(2)))
+            self.nfail += 1
+            tag, why = m.group(1), m.group(2)
+            k = match_known(self.pid, tag, c, self.known)
+            if k:
+                e = self.known_hit.get(k["id"])
+                self.known_hit[k["id"]] = (k, e[1] if e else c, (e[2] if e else 0) + 1)
+            else:
+                e = self.unknown.get(tag)
+                if e is None or len(c) < len(e[0]):
+                    self.unknown[tag] = (c, a, why, (e[3] if e else 0) + 1)
+                else:
+                    self.unknown[tag] = (e[0], e[1], e[2], e[3] + 1)
         m = re.search(r"note=(\S+)", a)
-        if m:
-            st["notes"][m.group(1)] = st["notes"].get(m.group(1), 0) + 1
-    return st
+        if m and len(self.notes) < 200:
+            self.notes[m.group(1)] = self.notes.get(m.group(1), 0) + 1
+        elif m and m.group(1) in self.notes:
+            self.notes[m.group(1)] += 1
 
 
 # --------------------------------------------------------------------------- main
@@ -413,82 +518,68 @@ def main(argv):
         if not okd or not os.path.exists(oracle_exe):
             print("cannot replay: driver or oracle did not build")
             return 2
-        res = run_phase(cfg, exe, oracle_exe, {"name": ""}, tier, seed, 1, workdir, replay=a.replay)
-        bad = 0
-        for c, ans in res["lines"]:
+        bad = [0]
+        def show(c, ans):
             print(c)
             print("   ->", ans)
             if "spec=FAIL" in ans or ans.startswith("DISAGREE"):
-                bad += 1
+                bad[0] += 1
+        res = run_phase(cfg, exe, oracle_exe, {"name": ""}, tier, seed, 1, workdir, replay=a.replay, on_line=show)
         for e in res["errors"]:
             print("error:", e)
-        return 1 if bad else 0
+        return 1 if bad[0] else 0
 
     # ----- correspondence + spec
-    all_lines, phase_stats, harness_errors = [], [], []
+    phase_stats, harness_errors = [], []
     can_run = okd and os.path.exists(oracle_exe) and not any(p[0] == "oracle-build" for p in problems)
     phases = cfg.get("phases", {}).get(tier) or [{"name": ""}]
+    st = Stats(pid, known)
     if can_run:
         for ph in phases:
-            res = run_phase(cfg, exe, oracle_exe, ph, tier, seed, scale, workdir)
+            res = run_phase(cfg, exe, oracle_exe, ph, tier, seed, scale, workdir, on_line=st.add)
             harness_errors += ["%s: %s" % (res["phase"], e) for e in res["errors"]]
-            all_lines += res["lines"]
-            phase_stats.append({"phase": res["phase"], "cases": len(res["lines"]), "driver_s": res["driver_s"]})
-    st = summarise(all_lines)
+            phase_stats.append({"phase": res["phase"], "cases": res["cases"], "driver_s": res["driver_s"]})
     for e in harness_errors:
         problems.append(("harness", "driver/oracle", e))
-    for c, ans in st["bad"][:3]:
+    for c, ans in st.bad[:3]:
         problems.append(("harness", "oracle", "unparseable case: %s -> %s" % (c[:300], ans)))
+    n_main = st.n
 
     # ----- search when a proof or the correspondence broke and the spec has not failed yet
-    searched = 0
-    unknown_fail = [f for f in st["fail"] if not match_known(pid, f[2], f[0], known)]
-    if (problems or st["disagree"]) and not unknown_fail and can_run:
+    if (problems or st.ndis) and not st.unknown and can_run:
         log("[%s] proof/correspondence broke; searching for a failing input" % pid)
+        has_search = "search" in cfg.get("phases", {})
         sp = cfg.get("phases", {}).get("search") or cfg.get("phases", {}).get("thorough") or phases
         for ph in sp:
             ph = dict(ph)
             ph.setdefault("timeout", 1500)
-            res = run_phase(cfg, exe, oracle_exe, ph, "thorough" if "search" not in cfg.get("phases", {}) else tier,
-                            seed + 1000, 10, workdir)
-            s2 = summarise(res["lines"])
-            searched += s2["n"]
-            st["fail"] += s2["fail"]
-            st["disagree"] += s2["disagree"]
-            unknown_fail = [f for f in st["fail"] if not match_known(pid, f[2], f[0], known)]
-            if unknown_fail:
+            res = run_phase(cfg, exe, oracle_exe, ph, tier if has_search else "thorough", seed + 1000, 10, workdir, on_line=st.add)
+            phase_stats.append({"phase": "search:" + res["phase"], "cases": res["cases"], "driver_s": res["driver_s"]})
+            if st.unknown:
                 break
+    searched = st.n - n_main
 
     # ----- verdict
     violations = 0
     out_lines = []
-    known_hit = {}
-    for c, ans, tag, why in st["fail"]:
-        k = match_known(pid, tag, c, known)
-        if k:
-            known_hit.setdefault(k["id"], (k, c))
-    for kid, (k, c) in sorted(known_hit.items()):
+    known_hit = st.known_hit
+    for kid, (k, c, cnt) in sorted(known_hit.items()):
         out_lines.append("KNOWN-FINDING: property=%s %s [%s]" % (pid, k.get("what", ""), kid))
-    if unknown_fail:
-        # shortest failing case per tag
-        by_tag = {}
-        for c, ans, tag, why in unknown_fail:
-            if tag not in by_tag or len(c) < len(by_tag[tag][0]):
-                by_tag[tag] = (c, ans, why)
-        for tag, (c, ans, why) in sorted(by_tag.items()):
-            body = "# property %s fails on the implementation (spec verdict by the Lean oracle)\n# tag=%s reason=%s\n# replay: bin/check %s --replay <this file>\n%s\n# oracle: %s\n" % (pid, tag, why, pid, c, ans)
+    if st.unknown:
+        for tag, (c, ans, why, cnt) in sorted(st.unknown.items()):
+            body = "# property %s fails on the implementation (spec verdict by the Lean oracle)\n# tag=%s reason=%s (%d failing cases with this tag)\n# replay: bin/check %s --replay <this file>\n%s\n# oracle: %s\n" % (pid, tag, why, cnt, pid, c, ans)
             if problems:
                 body += "# broken obligations at the same time:\n" + "".join("#   %s %s\n" % (p[0], p[1]) for p in problems)
             path = write_replay(pid, tag or "fail", body)
             out_lines.append("VIOLATION property=%s replay=%s" % (pid, path))
             violations += 1
-    elif problems or st["disagree"]:
+    elif problems or st.ndis:
         body = "# property %s: no failing input found, but the property is no longer shown to hold\n" % pid
         for kind, site, text in problems:
             body += "# broken %s: %s\n" % (kind, site)
             for l in text.splitlines()[:12]:
                 body += "#     %s\n" % l
-        for c, ans in st["disagree"][:5]:
+        for c, ans in st.disagree[:5]:
             body += "# model and implementation disagree on:\n%s\n# oracle: %s\n" % (c, ans)
         body += "# cases searched after the break: %d\n" % searched
         path = write_replay(pid, "broken", body)
@@ -498,7 +589,7 @@ def main(argv):
     # ----- evidence
     n_obl = len(obligations)
     n_dis = sum(1 for o in obligations if o["discharged"])
-    samples = [c for c, _ in all_lines[:3]] + [c for c, _ in all_lines[-2:]] if all_lines else []
+    samples = st.head + st.tail
     ev = {
         "property_id": pid, "tier": tier, "seed": seed, "level": cfg.get("level", "proof"),
         "coverage": {
@@ -507,14 +598,15 @@ def main(argv):
                 " ".join(modules), pid, pid, "; lake env leanchecker" if tier == "thorough" else ""),
             "trusted_base": cfg.get("trusted_base", []),
             "theorems": obligations,
-            "evaluations": st["n"] + searched,
-            "distinct_nontrivial": len(st["nontrivial"]),
-            "distinct_cases": len(st["distinct"]),
+            "evaluations": st.n,
+            "distinct_nontrivial": len(st.nontrivial),
+            "distinct_cases": len(st.distinct),
             "rule": cfg.get("rule", ""),
             "samples": [s[:600] for s in samples] or ["(no case was run)"],
-            "model_impl_agreements": st["agree"], "model_impl_disagreements": len(st["disagree"]),
-            "spec_failures": len(st["fail"]), "known_findings_hit": sorted(known_hit),
-            "phases": phase_stats, "notes": st["notes"],
+            "model_impl_agreements": st.agree, "model_impl_disagreements": st.ndis,
+            "spec_failures": st.nfail, "known_findings_hit": sorted(known_hit),
+            "spec_failures_by_known_finding": {k: v[2] for k, v in known_hit.items()},
+            "phases": phase_stats, "notes": st.notes,
             "changed_function_hashes": changed, "moved_facts": moved, "budget_scale": scale,
             "broken": [{"kind": p[0], "site": p[1]} for p in problems],
         },
@@ -528,6 +620,6 @@ def main(argv):
     for l in out_lines:
         print(l)
     print("%s %s: theorems %d/%d, cases %d (non-trivial distinct %d), disagreements %d, spec failures %d, %.1fs" % (
-        pid, "FAIL" if violations else "ok", n_dis, n_obl, st["n"] + searched, len(st["nontrivial"]),
-        len(st["disagree"]), len(st["fail"]), time.time() - t0))
+        pid, "FAIL" if violations else "ok", n_dis, n_obl, st.n, len(st.nontrivial),
+        st.ndis, st.nfail, time.time() - t0))
     return 1 if violations else 0
